@@ -217,6 +217,15 @@ def explore(ctx):
             if with_top:
                 set_anchor(masters[2], with_top[0], "top", masters[0])
             set_anchor(masters[1], "acutecomb", "_top", masters[0])
+        if i % 2 == 0:
+            # fractional anchor coordinates (halves and other fractions, positive and negative), different in every master: each
+            # master's anchor is rounded on its own, half up
+            fr = [Fr(1, 2), Fr(3, 4), Fr(1, 4), Fr(-5, 8)]
+            for k, m in enumerate(masters):
+                for g in m["glyphs"]:
+                    g["anchors"] = [(a[0], Fr(a[1]) + fr[(k + j) % 4], Fr(a[2]) - fr[(k + 2 * j + 1) % 4]) if a[0] in ("top", "_top") else a
+                                    for j, a in enumerate(g["anchors"])]
+            ctx.klass("fractional anchors")
         if vfeat and not nonmono and rng.random() < 0.6:
             # ... and 0 in one non-default master (with merged per-master layout the pair sets must be identical)
             masters[rng.randrange(1, n)]["kerning"][("public.kern1.L", "public.kern2.R")] = Fr(0)
